@@ -3,7 +3,7 @@
 
 use ndarray::{s, Array2, ArrayView2, ShapeBuilder};
 
-pub const LAYOUTS: [&str; 5] = ["standard", "fortran", "transposed_view", "reversed_rows_view", "every_second_row_view"];
+pub const LAYOUTS: [&str; 6] = ["standard", "fortran", "transposed_view", "reversed_rows_view", "every_second_row_view", "reversed_features_view"];
 
 pub struct Laid<F> {
     store: Array2<F>,
@@ -24,6 +24,8 @@ pub fn lay<F: Copy>(rows: &[Vec<F>], kind: &str, poison: F) -> Laid<F> {
         "reversed_rows_view" => Laid { store: Array2::from_shape_fn((n, d), |(i, j)| rows[n - 1 - i][j]), kind: 3 },
         // (2n x d) array whose odd rows hold poison, viewed with row stride 2
         "every_second_row_view" => Laid { store: Array2::from_shape_fn((2 * n, d), |(i, j)| if i % 2 == 0 { rows[i / 2][j] } else { poison }), kind: 4 },
+        // copy with the feature axis reversed, viewed with a negative column stride ("contiguous" in memory order)
+        "reversed_features_view" => Laid { store: Array2::from_shape_fn((n, d), |(i, j)| rows[i][d - 1 - j]), kind: 5 },
         _ => panic!("unknown layout {}", kind),
     }
 }
@@ -34,7 +36,8 @@ impl<F> Laid<F> {
             0 | 1 => self.store.view(),
             2 => self.store.t(),
             3 => self.store.slice(s![..;-1, ..]),
-            _ => self.store.slice(s![..;2, ..]),
+            4 => self.store.slice(s![..;2, ..]),
+            _ => self.store.slice(s![.., ..;-1]),
         }
     }
 }
@@ -44,5 +47,47 @@ pub fn expand<T: Clone>(rows: &[T], n_rows: Option<usize>) -> Vec<T> {
     match n_rows {
         Some(n) => (0..n).map(|i| rows[i % rows.len()].clone()).collect(),
         None => rows.to_vec(),
+    }
+}
+
+pub const TARGET_LAYOUTS: [&str; 4] = ["standard", "reversed_view", "stepped_view", "owned_inverted"];
+
+/// Storage behind one logical 1-D target vector in the layouts above. `filler(i)` gives the value of the entry
+/// the library must never read (stepped view), placed after logical entry i.
+pub struct LaidT<C> {
+    store: ndarray::Array1<C>,
+    kind: u8,
+}
+
+pub fn lay_targets<C: Clone>(vals: &[C], kind: &str, filler: &dyn Fn(usize) -> C) -> LaidT<C> {
+    let n = vals.len();
+    match kind {
+        "standard" => LaidT { store: ndarray::Array1::from(vals.to_vec()), kind: 0 },
+        "reversed_view" => LaidT { store: ndarray::Array1::from(vals.iter().rev().cloned().collect::<Vec<C>>()), kind: 1 },
+        "stepped_view" => LaidT { store: ndarray::Array1::from((0..2 * n).map(|i| if i % 2 == 0 { vals[i / 2].clone() } else { filler(i / 2) }).collect::<Vec<C>>()), kind: 2 },
+        // OWNED array whose only axis has stride -1
+        "owned_inverted" => {
+            let mut a = ndarray::Array1::from(vals.iter().rev().cloned().collect::<Vec<C>>());
+            a.invert_axis(ndarray::Axis(0));
+            LaidT { store: a, kind: 3 }
+        }
+        _ => panic!("unknown target layout {}", kind),
+    }
+}
+
+impl<C: Clone> LaidT<C> {
+    pub fn view(&self) -> ndarray::ArrayView1<'_, C> {
+        match self.kind {
+            1 => self.store.slice(s![..;-1]),
+            2 => self.store.slice(s![..;2]),
+            _ => self.store.view(),
+        }
+    }
+    /// the owned array itself (owned_inverted: negative stride kept)
+    pub fn owned(&self) -> ndarray::Array1<C> {
+        self.store.clone()
+    }
+    pub fn is_owned_kind(&self) -> bool {
+        self.kind == 0 || self.kind == 3
     }
 }
